@@ -2982,6 +2982,9 @@ def normal_form(ix, f, keep):
         lambda t: materialise_generators(ix, f, t, keep),
         lambda t: expand_maps(ix, f, t, keep),
         lambda t: inline_function(ix, f, keep=keep, fn=t),
+        lambda t: hoist_pipeline_calls(t),
+        lambda t: merge_set_aliases(t),
+        lambda t: propagate_tuple_locals(t),
         lambda t: desugar_match(t),
         lambda t: inline_expressions(ix, f, t, keep=keep),
         lambda t: fold_constants(t, consts, single),
@@ -3025,4 +3028,594 @@ def normal_form(ix, f, keep):
         if cur == prev:
             break
         prev = cur
+    return fn
+
+
+# ------------------------------------------------------------------------------------------------ diagnostics and annotations (round 11)
+LOG_METHODS = frozenset("debug info warning warn error exception critical log".split())
+CONSUMERS = frozenset("sorted list tuple set frozenset sum min max any all next dict enumerate zip map filter iter reversed".split())
+MUTATORS = frozenset("join pop popitem append extend update clear remove insert setdefault add discard sort reverse send close __next__ write".split())
+SAFE_CONTAINER_TESTS = ("dict", "list", "tuple", "str", "set", "frozenset")
+
+
+def strip_annotations(ix):
+    """`x: T = v` is `x = v`, `x: T` declares nothing at run time (function bodies; the module level is read through Index.module_globals)"""
+    class T(ast.NodeTransformer):
+        def visit_AnnAssign(self, n):
+            self.generic_visit(n)
+            if n.value is None:
+                return ast.copy_location(ast.Pass(), n)
+            return ast.copy_location(ast.Assign(targets=[n.target], value=n.value), n)
+    for q, f in ix.funcs.items():
+        if q == f.qual:
+            for i, s in enumerate(list(f.node.body)):
+                f.node.body[i] = T().visit(s)
+            ast.fix_missing_locations(f.node)
+
+
+def _module_loggers(ix, mod):
+    out = set()
+    for k, v in ix.module_globals(mod).items():
+        if isinstance(v, ast.Call) and u(v.func) in ("logging.getLogger", "getLogger"):
+            out.add(k)
+    for local, (src_mod, name, level) in ix.imports.get(mod, {}).items():
+        if level >= 1 and src_mod in ix.mods:
+            v = ix.module_globals(src_mod).get(name)
+            if isinstance(v, ast.Call) and u(v.func) in ("logging.getLogger", "getLogger"):
+                out.add(local)
+    return out
+
+
+def drop_diagnostics(ix):
+    """Logging is not behaviour of the library: statements that only emit log records - `logger.debug(...)`, `if logger.isEnabledFor(..): <such>`,
+    calls of package procedures that consist of nothing else - are removed from every function before the rules read it, PROVIDED their
+    arguments cannot change anything: no call that consumes an iterator (sorted / list / join ... of a plain name), no mutating method, no
+    assignment expression; package helpers called for their text must themselves read only (consumers only under an isinstance test for a
+    built-in container).  A record whose arguments do not meet this is left where it is and judged like any other code."""
+    loggers = {m: _module_loggers(ix, m) for m in ix.mods}
+    if not any(loggers.values()):
+        return
+    pure_memo = {}
+    diag_procs = set()
+
+    def callee(mod, call):
+        if isinstance(call.func, ast.Name):
+            q = ix.resolve_name(mod, call.func.id)
+            return ix.funcs.get(q) if q and q in ix.funcs else None
+        return None
+
+    def pure_helper(g, depth):
+        """a package function that is called for the text it returns and only reads"""
+        if g.qual in pure_memo:
+            return pure_memo[g.qual]
+        if depth > 3 or g.qual in ix.known:
+            return False
+        pure_memo[g.qual] = False
+        fn = g.node
+        params = {a.arg for a in fn.args.posonlyargs + fn.args.args + fn.args.kwonlyargs} | ({fn.args.vararg.arg} if fn.args.vararg else set())
+        ok = True
+        guarded = set()
+        for n in ast.walk(fn):
+            if isinstance(n, (ast.If, ast.IfExp)):
+                t = n.test
+                if isinstance(t, ast.Call) and u(t.func) == "isinstance" and len(t.args) == 2:
+                    cls = t.args[1].elts if isinstance(t.args[1], ast.Tuple) else [t.args[1]]
+                    if all(u(c) in SAFE_CONTAINER_TESTS for c in cls):
+                        for m in ast.walk(n.body if isinstance(n, ast.IfExp) else ast.Module(body=n.body, type_ignores=[])):
+                            guarded.add(id(m))
+        for n in ast.walk(fn):
+            if isinstance(n, (ast.Global, ast.Nonlocal, ast.NamedExpr, ast.Yield, ast.YieldFrom, ast.Await, ast.Delete, ast.AugAssign, ast.With, ast.Raise)):
+                ok = False
+            if isinstance(n, (ast.Assign, ast.For)):
+                for t in (n.targets if isinstance(n, ast.Assign) else [n.target]):
+                    if not all(isinstance(x, (ast.Name, ast.Tuple)) for x in ast.walk(t) if not isinstance(x, (ast.Store, ast.Load))):
+                        ok = False
+            if isinstance(n, ast.For) and isinstance(n.iter, ast.Name) and id(n) not in guarded and not (fn.args.vararg and n.iter.id == fn.args.vararg.arg):
+                ok = False
+            if isinstance(n, ast.Call) and not nonconsuming_call(g.mod, n, fn, depth + 1, guarded):
+                ok = False
+        pure_memo[g.qual] = ok
+        return ok
+
+    safe_memo = {}
+
+    def safe_names(fn):
+        """names of fn that certainly hold a re-iterable container: *args / **kwargs, and locals every binding of which is a display, a
+        comprehension or a dict / list / set / tuple / sorted call"""
+        if id(fn) in safe_memo:
+            return safe_memo[id(fn)]
+        out = set()
+        if fn.args.vararg:
+            out.add(fn.args.vararg.arg)
+        if fn.args.kwarg:
+            out.add(fn.args.kwarg.arg)
+        binds = {}
+        for n in ast.walk(fn):
+            if isinstance(n, ast.Assign):
+                for t in n.targets:
+                    for x in ast.walk(t):
+                        if isinstance(x, ast.Name) and isinstance(x.ctx, ast.Store):
+                            binds.setdefault(x.id, []).append(n.value if isinstance(t, ast.Name) else None)
+            elif isinstance(n, (ast.For, ast.comprehension)):
+                for x in ast.walk(n.target):
+                    if isinstance(x, ast.Name) and isinstance(x.ctx, ast.Store):
+                        binds.setdefault(x.id, []).append(None)
+            elif isinstance(n, (ast.AugAssign, ast.NamedExpr)) and isinstance(n.target, ast.Name):
+                binds.setdefault(n.target.id, []).append(None)
+        params = {a.arg for a in fn.args.posonlyargs + fn.args.args + fn.args.kwonlyargs}
+        for k, vs in binds.items():
+            if k not in params and all(isinstance(v, (ast.Dict, ast.List, ast.Set, ast.Tuple, ast.ListComp, ast.DictComp, ast.SetComp)) or
+                                       (isinstance(v, ast.Call) and u(v.func) in ("dict", "list", "set", "tuple", "sorted")) for v in vs):
+                out.add(k)
+        safe_memo[id(fn)] = out
+        return out
+
+    def nonconsuming_call(mod, n, fn, depth, guarded=()):
+        name = u(n.func)
+        short = n.func.attr if isinstance(n.func, ast.Attribute) else name
+        if isinstance(n.func, ast.Name) and name in CONSUMERS:
+            if id(n) in guarded:
+                return True
+            return all(isinstance(a, (ast.Constant, ast.Tuple, ast.List, ast.Dict, ast.Set, ast.ListComp, ast.DictComp, ast.SetComp, ast.Attribute, ast.Subscript, ast.Call, ast.GeneratorExp))
+                       or (isinstance(a, ast.Name) and a.id in safe_names(fn)) for a in n.args)
+        if isinstance(n.func, ast.Attribute) and short in MUTATORS and not (short == "join" and isinstance(n.func.value, ast.Constant) and n.args and (
+                isinstance(n.args[0], (ast.ListComp, ast.List, ast.Tuple, ast.Call, ast.GeneratorExp)) or (isinstance(n.args[0], ast.Name) and n.args[0].id in safe_names(fn)))):
+            return False
+        if isinstance(n.func, ast.Name):
+            g = callee(mod, n)
+            if g is not None:
+                return g.qual in diag_procs or pure_helper(g, depth)
+        return True
+
+    def nonconsuming(mod, e, fn):
+        for n in ast.walk(e):
+            if isinstance(n, (ast.NamedExpr, ast.Yield, ast.YieldFrom, ast.Await, ast.Lambda)):
+                return False
+            if isinstance(n, (ast.ListComp, ast.SetComp, ast.DictComp, ast.GeneratorExp)):
+                for gen in n.generators:
+                    if isinstance(gen.iter, ast.Name) and gen.iter.id not in safe_names(fn):
+                        return False
+            if isinstance(n, ast.Call) and not nonconsuming_call(mod, n, fn, 0):
+                return False
+        return True
+
+    def is_diag(mod, s, fn):
+        if isinstance(s, ast.Expr) and isinstance(s.value, ast.Call):
+            c = s.value
+            if isinstance(c.func, ast.Attribute) and isinstance(c.func.value, ast.Name) and c.func.value.id in loggers.get(mod, ()) and c.func.attr in LOG_METHODS:
+                return all(nonconsuming(mod, a, fn) for a in list(c.args) + [k.value for k in c.keywords])
+            g = callee(mod, c)
+            if g is not None and g.qual in diag_procs:
+                return all(nonconsuming(mod, a, fn) for a in list(c.args) + [k.value for k in c.keywords])
+            return False
+        if isinstance(s, ast.If) and not s.orelse:
+            t = s.test
+            if enabled_test(mod, t) or (isinstance(t, ast.Name) and t.id in flags(mod, fn)):
+                return all(is_diag(mod, x, fn) or isinstance(x, ast.Pass) for x in s.body)
+        return False
+
+    def enabled_test(mod, t):
+        return isinstance(t, ast.Call) and isinstance(t.func, ast.Attribute) and isinstance(t.func.value, ast.Name) and t.func.value.id in loggers.get(mod, ()) and t.func.attr == "isEnabledFor"
+
+    flag_memo = {}
+
+    def flags(mod, fn):
+        """locals bound exactly once, to `logger.isEnabledFor(...)`"""
+        if id(fn) not in flag_memo:
+            binds = {}
+            for n in ast.walk(fn):
+                if isinstance(n, ast.Assign):
+                    for t in n.targets:
+                        for x in ast.walk(t):
+                            if isinstance(x, ast.Name) and isinstance(x.ctx, ast.Store):
+                                binds.setdefault(x.id, []).append(n.value if isinstance(t, ast.Name) else None)
+                elif isinstance(n, (ast.For, ast.comprehension, ast.AugAssign, ast.NamedExpr)):
+                    for x in ast.walk(n.target):
+                        if isinstance(x, ast.Name) and isinstance(x.ctx, ast.Store):
+                            binds.setdefault(x.id, []).append(None)
+            flag_memo[id(fn)] = {k for k, vs in binds.items() if len(vs) == 1 and vs[0] is not None and enabled_test(mod, vs[0])}
+        return flag_memo[id(fn)]
+
+    def body_sans_doc(fn):
+        b = fn.body
+        return b[1:] if b and isinstance(b[0], ast.Expr) and isinstance(b[0].value, ast.Constant) and isinstance(b[0].value.value, str) else b
+
+    # procedures that consist of diagnostics only (fixpoint: one may call another)
+    changed = True
+    while changed:
+        changed = False
+        for q, g in ix.funcs.items():
+            if q != g.qual or q in diag_procs or q in ix.known or g.cls:
+                continue
+            b = body_sans_doc(g.node)
+            if b and all(is_diag(g.mod, s, g.node) or isinstance(s, ast.Pass) or (isinstance(s, ast.Return) and s.value is None) for s in b):
+                diag_procs.add(q)
+                changed = True
+
+    dropped_refs = set()
+
+    def strip(mod, stmts, fn):
+        out = []
+        for s in stmts:
+            if is_diag(mod, s, fn):
+                dropped_refs.update((mod, x.id) for x in ast.walk(s) if isinstance(x, ast.Name))
+                continue
+            for fld in ("body", "orelse", "finalbody"):
+                if isinstance(getattr(s, fld, None), list) and not isinstance(s, (ast.FunctionDef, ast.AsyncFunctionDef, ast.ClassDef)):
+                    new = strip(mod, getattr(s, fld), fn)
+                    if not new and fld == "body":
+                        new = [ast.copy_location(ast.Pass(), s)]
+                    setattr(s, fld, new)
+            if isinstance(s, ast.Try):
+                for h in s.handlers:
+                    h.body = strip(mod, h.body, fn) or [ast.copy_location(ast.Pass(), h)]
+            # `if c: <only diagnostics>` has become `if c: pass`: the test is kept only if it can do something
+            if isinstance(s, ast.If) and all(isinstance(x, ast.Pass) for x in s.body) and not s.orelse and nonconsuming(mod, s.test, fn) and not any(isinstance(x, ast.Call) and callee(mod, x) is not None and not pure_helper(callee(mod, x), 0) for x in ast.walk(s.test)):
+                continue
+            out.append(s)
+        return out
+
+    def tidy(fn, fl):
+        used = {}
+        for n in ast.walk(fn):
+            if isinstance(n, ast.Name) and isinstance(n.ctx, ast.Load):
+                used[n.id] = used.get(n.id, 0) + 1
+        pairs = {}
+        for n in ast.walk(fn):
+            for fld in ("body", "orelse", "finalbody"):
+                b = getattr(n, fld, None)
+                if isinstance(b, list):
+                    for a_, b_ in zip(b, b[1:]):
+                        if isinstance(a_, ast.Assign) and len(a_.targets) == 1 and isinstance(a_.targets[0], ast.Name) and isinstance(b_, ast.Assign) and isinstance(b_.value, ast.Name) \
+                                and b_.value.id == a_.targets[0].id:
+                            pairs[b_.value.id] = pairs.get(b_.value.id, 0) + 1
+        for n in ast.walk(fn):
+            if isinstance(n, ast.ExceptHandler) and n.name and not used.get(n.name):
+                n.name = None
+            # a counter that only the records read: `for i, x in enumerate(X)` is `for x in X`
+            if isinstance(n, ast.For) and isinstance(n.target, ast.Tuple) and len(n.target.elts) == 2 and isinstance(n.target.elts[0], ast.Name) and not used.get(n.target.elts[0].id) \
+                    and isinstance(n.iter, ast.Call) and u(n.iter.func) == "enumerate" and len(n.iter.args) == 1 and not n.iter.keywords:
+                n.target, n.iter = n.target.elts[1], n.iter.args[0]
+            for fld in ("body", "orelse", "finalbody"):
+                b = getattr(n, fld, None)
+                if not isinstance(b, list) or not b or not isinstance(b[0], ast.stmt):
+                    continue
+                out = []
+                i = 0
+                while i < len(b):
+                    s_ = b[i]
+                    if isinstance(s_, ast.Assign) and len(s_.targets) == 1 and isinstance(s_.targets[0], ast.Name):
+                        x = s_.targets[0].id
+                        if x in fl and not used.get(x):
+                            i += 1
+                            continue
+                        nxt = b[i + 1] if i + 1 < len(b) else None
+                        if x in temps and used.get(x) == pairs.get(x) and isinstance(nxt, ast.Assign) and isinstance(nxt.value, ast.Name) and nxt.value.id == x and len(nxt.targets) == 1 \
+                                and not any(isinstance(y, (ast.Call, ast.Name)) and not isinstance(y.ctx if isinstance(y, ast.Name) else ast.Load(), ast.Store) and isinstance(y, ast.Call) for y in ast.walk(nxt.targets[0])):
+                            out.append(ast.copy_location(ast.Assign(targets=nxt.targets, value=s_.value), nxt))
+                            i += 2
+                            continue
+                    out.append(s_)
+                    i += 1
+                setattr(n, fld, out or [ast.copy_location(ast.Pass(), n)])
+
+    for q, g in ix.funcs.items():
+        if q != g.qual or q in diag_procs:
+            continue
+        before = {}
+        for n in ast.walk(g.node):
+            if isinstance(n, ast.Name) and isinstance(n.ctx, ast.Load):
+                before[n.id] = before.get(n.id, 0) + 1
+        fl = flags(g.mod, g.node)
+        g.node.body = strip(g.mod, g.node.body, g.node) or [ast.copy_location(ast.Pass(), g.node)]
+        after = {}
+        for n in ast.walk(g.node):
+            if isinstance(n, ast.Name) and isinstance(n.ctx, ast.Load):
+                after[n.id] = after.get(n.id, 0) + 1
+        # a local that was read by a record and by the one statement that stores it is a temporary the record introduced
+        temps = {k for k, c in before.items() if 0 < after.get(k, 0) < c}
+        if temps or fl or before != after:
+            tidy(g.node, fl)
+            ast.fix_missing_locations(g.node)
+    ix.diag_procs = diag_procs
+    # the procedures themselves, and the read-only helpers that only they called, are not part of the analysed program any more
+    for q in diag_procs:
+        g = ix.funcs[q]
+        dropped_refs.update((g.mod, x.id) for x in ast.walk(g.node) if isinstance(x, ast.Name))
+    gone = set(diag_procs)
+    changed = True
+    while changed:
+        changed = False
+        live = set()
+        for q, g in ix.funcs.items():
+            if q == g.qual and q not in gone:
+                live.update(x.id for x in ast.walk(g.node) if isinstance(x, ast.Name))
+                live.update(x.attr for x in ast.walk(g.node) if isinstance(x, ast.Attribute))
+        for (mod, name) in sorted(dropped_refs):
+            q = ix.resolve_name(mod, name)
+            g = ix.funcs.get(q) if q and q in ix.funcs else None
+            if g is None or g.qual in gone or g.qual in ix.known or g.cls or g.name in live:
+                continue
+            if pure_helper(g, 0):
+                gone.add(g.qual)
+                dropped_refs.update((g.mod, x.id) for x in ast.walk(g.node) if isinstance(x, ast.Name))
+                changed = True
+    for q in [q for q, g in ix.funcs.items() if g.qual in gone]:
+        del ix.funcs[q]
+
+
+def merge_set_aliases(fn):
+    """`h = s` (left by the inliner for a helper parameter that the helper updates with `|=`), where every binding of `s` in the function is a
+    set (set(...) call, display or comprehension) and `h` is afterwards only read or updated in place (`h |= ...`, `h.add(...)`): `h` IS `s` -
+    an in-place update of a set keeps the object - so `h` is replaced by `s`."""
+    binds = {}
+    for n in ast.walk(fn):
+        if isinstance(n, ast.Assign):
+            for t in n.targets:
+                if isinstance(t, ast.Name):
+                    binds.setdefault(t.id, []).append(n)
+                else:
+                    for x in ast.walk(t):
+                        if isinstance(x, ast.Name) and isinstance(x.ctx, ast.Store):
+                            binds.setdefault(x.id, []).append(None)
+        elif isinstance(n, (ast.For, ast.comprehension)):
+            for x in ast.walk(n.target):
+                if isinstance(x, ast.Name) and isinstance(x.ctx, ast.Store):
+                    binds.setdefault(x.id, []).append(None)
+        elif isinstance(n, ast.AugAssign) and isinstance(n.target, ast.Name):
+            binds.setdefault(n.target.id, []).append(n)
+
+    def is_set(v):
+        return isinstance(v, (ast.Set, ast.SetComp)) or (isinstance(v, ast.Call) and u(v.func) == "set")
+
+    ren = {}
+    for h, bs in binds.items():
+        plain = [b for b in bs if isinstance(b, ast.Assign)]
+        if not h.startswith("_h") or len(plain) != 1 or any(b is None for b in bs) or not isinstance(plain[0].value, ast.Name):
+            continue
+        if not all(isinstance(b, ast.Assign) or (isinstance(b, ast.AugAssign) and isinstance(b.op, ast.BitOr)) for b in bs):
+            continue
+        s_ = plain[0].value.id
+        sb = binds.get(s_, [])
+        if sb and all(isinstance(b, ast.Assign) and is_set(b.value) or (isinstance(b, ast.AugAssign) and isinstance(b.op, ast.BitOr)) for b in sb):
+            ren[h] = (s_, plain[0])
+    if not ren:
+        return fn
+
+    class T(ast.NodeTransformer):
+        def visit_Assign(self, n):
+            if any(n is a for _, a in ren.values()):
+                return None
+            return self.generic_visit(n)
+
+        def visit_Name(self, n):
+            if n.id in ren:
+                return ast.copy_location(ast.Name(id=ren[n.id][0], ctx=n.ctx), n)
+            return n
+    fn = T().visit(fn)
+    ast.fix_missing_locations(fn)
+    return fn
+
+
+def propagate_tuple_locals(fn, accessors=()):
+    """After a helper that returns `(f, ctx)` or `None` has been read into its caller, each arm binds the result to a known value and the
+    code that follows tests and unpacks it: `x = (A, B); if x is not None: a, b = x; use(a(b))`.  With the value known the test is decided,
+    the unpacking becomes `a = A; b = B`, and a name bound to a function or to an accessor call is replaced in the statement that follows."""
+    def simple(e):
+        if isinstance(e, ast.Name):
+            return True
+        if isinstance(e, ast.Attribute):
+            return simple(e.value)
+        if isinstance(e, ast.Call) and not e.args and not e.keywords and isinstance(e.func, ast.Attribute):
+            return simple(e.func.value)
+        return False
+
+    def decide(test, x, val):
+        t = " ".join(u(test).split())
+        known_none = isinstance(val, ast.Constant) and val.value is None
+        if t == "%s is not None" % x:
+            return not known_none
+        if t == "%s is None" % x:
+            return known_none
+        if t == x:
+            return (not known_none) and bool(val.elts)
+        if t == "not %s" % x:
+            return known_none or not val.elts
+        return None
+
+    changed = [False]
+
+    def block(stmts):
+        out = []
+        known = {}
+        queue = list(stmts)
+        while queue:
+            s = queue.pop(0)
+            # a ladder whose arms only choose the value of one local, followed by the test of that local: the test moves into every arm
+            if isinstance(s, ast.If) and queue and isinstance(queue[0], ast.If):
+                arms, cur = [], s
+                while True:
+                    arms.append(cur.body)
+                    if len(cur.orelse) == 1 and isinstance(cur.orelse[0], ast.If):
+                        cur = cur.orelse[0]
+                    else:
+                        arms.append(cur.orelse)
+                        break
+                xs = set()
+                okl = True
+                for a in arms:
+                    if len(a) == 1 and isinstance(a[0], ast.Assign) and len(a[0].targets) == 1 and isinstance(a[0].targets[0], ast.Name) and (
+                            (isinstance(a[0].value, ast.Tuple) and all(simple(e) for e in a[0].value.elts)) or (isinstance(a[0].value, ast.Constant) and a[0].value.value is None)):
+                        xs.add(a[0].targets[0].id)
+                    else:
+                        okl = False
+                if okl and len(xs) == 1:
+                    x = next(iter(xs))
+                    if decide(queue[0].test, x, ast.Constant(value=None)) is not None:
+                        follow = queue.pop(0)
+                        for a in arms:
+                            a.append(copy.deepcopy(follow))
+                        changed[0] = True
+            if isinstance(s, ast.If):
+                hit = None
+                for x, val in known.items():
+                    d = decide(s.test, x, val)
+                    if d is not None:
+                        hit = d
+                        break
+                if hit is not None:
+                    queue = list(s.body if hit else s.orelse) + queue
+                    changed[0] = True
+                    continue
+            if isinstance(s, ast.Assign) and len(s.targets) == 1 and isinstance(s.targets[0], ast.Tuple) and isinstance(s.value, ast.Name) and s.value.id in known \
+                    and isinstance(known[s.value.id], ast.Tuple) and len(known[s.value.id].elts) == len(s.targets[0].elts) and all(isinstance(t, ast.Name) for t in s.targets[0].elts):
+                new = [ast.copy_location(ast.Assign(targets=[ast.Name(id=t.id, ctx=ast.Store())], value=copy.deepcopy(v)), s) for t, v in zip(s.targets[0].elts, known[s.value.id].elts)]
+                queue = new + queue
+                changed[0] = True
+                continue
+            # a name just bound to a function or an accessor call: replace it in the statement that follows
+            if isinstance(s, ast.Assign) and len(s.targets) == 1 and isinstance(s.targets[0], ast.Name) and simple(s.value) and s.targets[0].id in subst_ok and queue:
+                name, val = s.targets[0].id, s.value
+                # collect the run of such bindings, then substitute all of them in the first statement after the run
+                run = [(name, val)]
+                k = 0
+                while k < len(queue) and isinstance(queue[k], ast.Assign) and len(queue[k].targets) == 1 and isinstance(queue[k].targets[0], ast.Name) and simple(queue[k].value) \
+                        and queue[k].targets[0].id in subst_ok:
+                    run.append((queue[k].targets[0].id, queue[k].value))
+                    k += 1
+                if k < len(queue) and not isinstance(queue[k], (ast.For, ast.While, ast.If, ast.Try, ast.With, ast.FunctionDef)):
+                    m = dict(run)
+
+                    class S(ast.NodeTransformer):
+                        def visit_Name(self, n):
+                            if isinstance(n.ctx, ast.Load) and n.id in m:
+                                changed[0] = True
+                                return copy.deepcopy(m[n.id])
+                            return n
+                    queue[k] = S().visit(queue[k])
+            if isinstance(s, ast.Assign) and len(s.targets) == 1 and isinstance(s.targets[0], ast.Name):
+                x = s.targets[0].id
+                if isinstance(s.value, ast.Tuple) and all(simple(e) for e in s.value.elts) or (isinstance(s.value, ast.Constant) and s.value.value is None):
+                    known[x] = s.value
+                else:
+                    known.pop(x, None)
+            elif not isinstance(s, (ast.Expr, ast.Pass)):
+                for n in ast.walk(s):
+                    if isinstance(n, ast.Name) and isinstance(n.ctx, ast.Store):
+                        known.pop(n.id, None)
+            for fld in ("body", "orelse", "finalbody"):
+                b = getattr(s, fld, None)
+                if isinstance(b, list) and b and isinstance(b[0], ast.stmt) and not isinstance(s, (ast.FunctionDef, ast.ClassDef)):
+                    setattr(s, fld, block(b) or [ast.copy_location(ast.Pass(), s)])
+            if isinstance(s, ast.Try):
+                for h in s.handlers:
+                    h.body = block(h.body) or [ast.copy_location(ast.Pass(), h)]
+            out.append(s)
+        return out
+
+    # names that are only ever bound to a function reference or to an accessor call, and unpacked from known tuples
+    binds = {}
+    for n in ast.walk(fn):
+        if isinstance(n, ast.Assign):
+            for t in n.targets:
+                if isinstance(t, ast.Name):
+                    binds.setdefault(t.id, []).append(n.value)
+                else:
+                    for x in ast.walk(t):
+                        if isinstance(x, ast.Name) and isinstance(x.ctx, ast.Store):
+                            binds.setdefault(x.id, []).append("unpack")
+        elif isinstance(n, (ast.For, ast.comprehension, ast.AugAssign, ast.NamedExpr, ast.withitem, ast.ExceptHandler)):
+            tgt = getattr(n, "target", None) or getattr(n, "optional_vars", None)
+            if tgt is not None and not isinstance(tgt, str):
+                for x in ast.walk(tgt):
+                    if isinstance(x, ast.Name) and isinstance(x.ctx, ast.Store):
+                        binds.setdefault(x.id, []).append(None)
+    params = {a.arg for a in fn.args.posonlyargs + fn.args.args + fn.args.kwonlyargs}
+    # `a, b = (x, y)` with plain elements is two bindings (left to right; nothing is evaluated on the right)
+    class Split(ast.NodeTransformer):
+        def visit_Assign(self, n):
+            if len(n.targets) == 1 and isinstance(n.targets[0], ast.Tuple) and isinstance(n.value, ast.Tuple) and len(n.targets[0].elts) == len(n.value.elts) \
+                    and all(isinstance(t, ast.Name) for t in n.targets[0].elts) and all(isinstance(v, ast.Name) for v in n.value.elts) \
+                    and not ({t.id for t in n.targets[0].elts} & {v.id for v in n.value.elts}):
+                return [ast.copy_location(ast.Assign(targets=[ast.Name(id=t.id, ctx=ast.Store())], value=v), n) for t, v in zip(n.targets[0].elts, n.value.elts)]
+            return n
+    fn = Split().visit(fn)
+    ast.fix_missing_locations(fn)
+    has_tuple_local = any(isinstance(v, ast.Tuple) for vs in binds.values() for v in vs if isinstance(v, ast.AST))
+    if not has_tuple_local:
+        return fn
+    subst_ok = {k for k, vs in binds.items() if k not in params and all(v == "unpack" or (isinstance(v, ast.AST) and simple(v)) for v in vs) and any(v == "unpack" for v in vs)}
+    for _ in range(3):
+        changed[0] = False
+        fn.body = block(fn.body)
+        # after the unpacking has been split, the unpacked names are plain bindings: recompute
+        binds2 = {}
+        for n in ast.walk(fn):
+            if isinstance(n, ast.Assign):
+                for t in n.targets:
+                    for x in ast.walk(t):
+                        if isinstance(x, ast.Name) and isinstance(x.ctx, ast.Store):
+                            binds2.setdefault(x.id, []).append(n.value if isinstance(t, ast.Name) else None)
+        if not changed[0]:
+            break
+    # the selector local itself is dead once its tests are decided and its unpackings split
+    loads = {}
+    for n in ast.walk(fn):
+        if isinstance(n, ast.Name) and isinstance(n.ctx, ast.Load):
+            loads[n.id] = loads.get(n.id, 0) + 1
+
+    def sweep(stmts):
+        out = []
+        for s in stmts:
+            if isinstance(s, ast.Assign) and len(s.targets) == 1 and isinstance(s.targets[0], ast.Name) and not loads.get(s.targets[0].id) and s.targets[0].id not in params and (
+                    (isinstance(s.value, ast.Tuple) and all(simple(e) for e in s.value.elts)) or (isinstance(s.value, ast.Constant) and s.value.value is None) or
+                    (simple(s.value) and s.targets[0].id in subst_ok)):
+                continue
+            for fld in ("body", "orelse", "finalbody"):
+                b = getattr(s, fld, None)
+                if isinstance(b, list) and b and isinstance(b[0], ast.stmt) and not isinstance(s, (ast.FunctionDef, ast.ClassDef)):
+                    nb = sweep(b)
+                    setattr(s, fld, nb if (nb or fld != "body") else [ast.copy_location(ast.Pass(), s)])
+            out.append(s)
+        return out
+    fn.body = sweep(fn.body)
+    ast.fix_missing_locations(fn)
+    return fn
+
+
+def hoist_pipeline_calls(fn):
+    """`parser = blackbirdParser(CommonTokenStream(blackbirdLexer(data)))` is the three constructions it nests: each gets its own binding, in
+    evaluation order, so that the pipeline rules (C10.2) read one lexer, one token stream and one parser however they are spelled"""
+    STAGES = ("blackbirdLexer", "CommonTokenStream", "blackbirdParser")
+
+    def stage(e):
+        return u(e.func).split(".")[-1] if isinstance(e, ast.Call) and u(e.func).split(".")[-1] in STAGES else None
+
+    counter = [0]
+
+    def rewrite(stmts):
+        out = []
+        for s in stmts:
+            for fld in ("body", "orelse", "finalbody"):
+                b = getattr(s, fld, None)
+                if isinstance(b, list) and b and isinstance(b[0], ast.stmt) and not isinstance(s, (ast.FunctionDef, ast.ClassDef)):
+                    setattr(s, fld, rewrite(b))
+            if isinstance(s, ast.Assign) and stage(s.value) and s.value.args and stage(s.value.args[0]):
+                pre = []
+
+                def lift(call):
+                    inner = call.args[0]
+                    if stage(inner):
+                        if inner.args and stage(inner.args[0]):
+                            lift(inner)
+                        counter[0] += 1
+                        name = "_%s%d" % ({"blackbirdLexer": "lexer", "CommonTokenStream": "stream", "blackbirdParser": "parser"}[stage(inner)], counter[0])
+                        pre.append(ast.copy_location(ast.Assign(targets=[ast.Name(id=name, ctx=ast.Store())], value=inner), s))
+                        call.args[0] = ast.copy_location(ast.Name(id=name, ctx=ast.Load()), inner)
+                lift(s.value)
+                out.extend(pre)
+            out.append(s)
+        return out
+    fn.body = rewrite(fn.body)
+    ast.fix_missing_locations(fn)
     return fn
